@@ -725,9 +725,7 @@ func handleZRANDMEMBER(params internal.HandlerFuncParams) ([]byte, error) {
 		if err != nil {
 			return nil, errors.New("count must be an integer")
 		}
-		if c != 0 {
-			count = c
-		}
+		count = c
 	}
 
 	withscores := false
